@@ -125,15 +125,18 @@ PROPS = {
     ),
     "C09": dict(
         level="proof",
-        functions=CORE_SCHEDULE + CORE_DISPATCH + ["Dispatcher.next_operation"],
+        functions=CORE_SCHEDULE + CORE_DISPATCH + ["Dispatcher.next_operation", "SingleJobShopGraphEnv.step"],
         lemmas=[],
         tierb=True,
         trusted=[T_OBSERVERS, T_NUM_MACHINES],
         assumptions=[A_VALID, A_REGIONS,
                      "the request carries an operation of the dispatcher's instance (requests with foreign operation objects "
                      "are outside the quantifier)",
-                     "the environment part (SingleJobShopGraphEnv.step for a finished job / ineligible machine) is decided "
-                     "by the bounded run only (numpy/gymnasium objects around the dispatcher call)"],
+                     "the environment part: SingleJobShopGraphEnv.step is verified around the dispatcher call -- a finished job, "
+                     "an out-of-range job or machine id, -1 for an operation with several machines and an ineligible machine "
+                     "raise exactly the declared errors and leave everything that existed unchanged; get_observation and the "
+                     "reward / composite observer reads are opaque read-only contracts (numpy/gymnasium), MultiJobShopGraphEnv "
+                     "is exercised by the bounded run"],
     ),
     "C10": dict(
         level="proof",
@@ -169,8 +172,10 @@ PROPS = {
                      "objective before) (method contracts + step lemmas over dispatch's contract); the sum over a whole "
                      "history telescopes because every accepted dispatch calls update exactly once in the post-state (C10, "
                      "proved) -- that composition step itself is not mechanised and is exercised by the bounded run",
-                     "`step returns the reward emitted for that step` (SingleJobShopGraphEnv.step) is decided by the "
-                     "bounded run (C18 harness); RewardObserver.last_reward is proved to return the last emitted reward"],
+                     "`step returns the reward emitted for that step`: SingleJobShopGraphEnv.step is proved to return "
+                     "reward_function.last_reward read AFTER the dispatch (opaque read), RewardObserver.last_reward is proved to "
+                     "return the last emitted reward; that the env's reward object is the subscribed observer that was updated "
+                     "is exercised by the bounded run (C18 harness)"],
     ),
     "C03": dict(
         level="proof",
@@ -222,7 +227,8 @@ PROPS = {
                    "score_based_rule.rule", "score_based_rule_with_tie_breaker.rule",
                    "shortest_processing_time_score", "first_come_first_served_score", "BaseSolver.__call__",
                    "Dispatcher.available_operations", "Dispatcher.available_operations$raw",
-                   "Dispatcher.unscheduled_operations", "Dispatcher.dispatch", "Schedule.is_complete"],
+                   "Dispatcher.unscheduled_operations", "Dispatcher.unscheduled_operations$raw", "Dispatcher.dispatch",
+                   "Schedule.is_complete"],
         lemmas=["reach-implies-feasible", "complete-iff-every-job-finished"],
         tierb=True,
         trusted=[T_OBSERVERS,
@@ -241,16 +247,40 @@ PROPS = {
                      "satisfying Reach (hence Feasible, lemma reach-implies-feasible) for ANY rule/chooser honouring the "
                      "abstract contracts and any filter honouring the abstract filter contract, when a dispatcher is "
                      "supplied (the `dispatcher is None` branch only constructs one); step() never raises; SPT and FCFS "
-                     "return an element of available_operations() minimal under duration / position_in_job; MWKR, "
-                     "score_based_rule(f).rule and the tie-breaker rule return an element of available_operations() and "
-                     "never raise (no empty max, no index error) for ANY scoring functions; SPT/FCFS scoring functions "
+                     "return an element of available_operations() minimal under duration / position_in_job; MWKR returns "
+                     "an available operation whose job has the MOST remaining work (the accumulation loop over "
+                     "unscheduled_operations() computes, per job, the sum of the durations of its unscheduled operations: "
+                     "ghost prefix sums; every unscheduled operation sits at exactly one index of the list); "
+                     "score_based_rule(f).rule returns an available operation with a HIGHEST score in the list f returned, "
+                     "for ANY scoring function f; the tie-breaker rule returns an element of available_operations() and "
+                     "never raises (no empty max, no index error) for ANY scoring functions; SPT/FCFS scoring functions "
                      "give each available operation's job the documented score; BaseSolver.__call__ stores a "
                      "non-negative elapsed_time and the class name of the solver",
-                     "bounded only: that MWKR / MOR / score-based / tie-breaker selections are MAXIMAL (lexicographically "
-                     "best) under their criterion, equality of the direct and the observer-based MWKR rule (numpy), "
+                     "bounded only: that MOR (uses uncompleted_operations) and tie-breaker selections are MAXIMAL "
+                     "(lexicographically best) under their criterion, equality of the direct and the observer-based MWKR rule (numpy), "
                      "the factories and the 5 x 2 x filter configuration matrix, machine choosers"],
     ),
-    "C11": dict(level="exploration", functions=[], lemmas=[], tierb=True),
+    "C11": dict(
+        level="exploration",
+        functions=["PositionInJobObserver.update", "RemainingOperationsObserver.update",
+                   "UnscheduledOperationsObserver.update", "UnscheduledOperationsObserver.reset"],
+        lemmas=[],
+        tierb=True,
+        trusted=[T_OBSERVERS,
+                 "numpy through the contract of contracts/features.py: `observer.features` maps a FeatureType to a one-column "
+                 "array; a[i, 0] reads, a[i, 0] = v / += v / -= v write exactly that entry (IndexError outside), a[:] = v sets "
+                 "every entry, `t in features` tells whether t is tracked; the float32 entries hold small integers (exact)"],
+        assumptions=[A_VALID,
+                     "assumed (true at the only call site, not part of the abstract observer contract): the operation handed to "
+                     "update() is the latest dispatched operation of its job",
+                     "proved (step specifications, reported; the property itself stays bounded): PositionInJobObserver.update "
+                     "sets the entry of every later operation of the job to its new position among the unscheduled ones "
+                     "(p - p0 - 1) and leaves every other entry alone; RemainingOperationsObserver.update lowers exactly the "
+                     "job's and the machine's counter by one (for the tracked feature types); UnscheduledOperationsObserver "
+                     "update / reset keep the per-job deques a mirror of the dispatcher's next-operation indices",
+                     "bounded only: the absolute values after every history (induction from the initial values), all other "
+                     "feature observers (fancy indexing, vectorised arithmetic), the composite, constructibility"],
+    ),
     "C12": dict(
         level="exploration",
         # the part within reach of contracts is proved and reported, but the property is about numpy feature
@@ -278,6 +308,7 @@ PROPS = {
                    "JobShopInstance.durations_matrix", "JobShopInstance.machines_matrix", "JobShopInstance.max_duration",
                    "JobShopInstance.max_duration_per_job", "JobShopInstance.max_duration_per_machine",
                    "JobShopInstance.job_durations", "JobShopInstance.total_duration",
+                   "JobShopInstance.from_matrices", "JobShopInstance.from_matrices$flexible",
                    "Dispatcher.dispatch", "Dispatcher.reset", "DispatchingRuleSolver.solve"],
         lemmas=[],
         tierb=True,
@@ -296,8 +327,11 @@ PROPS = {
                      "durations_matrix, machines_matrix (both branches), max_duration, max_duration_per_job, "
                      "max_duration_per_machine, job_durations, total_duration equal their definitions; dispatch, reset and "
                      "the dispatching-rule solver loop have frames that exclude every field and list of the instance",
+                     "proved: JobShopInstance.from_matrices (machine ids or lists of machine ids) builds one job per row and one "
+                     "NEW operation per entry with the duration and the machine(s) of that entry, numbered, for ragged matrices too "
+                     "(together with durations_matrix / machines_matrix this is the matrices round trip, composed by the bounded run)",
                      "bounded only: numpy arrays (padded matrices), operations_by_machine, machine_loads, to_dict / "
-                     "from_matrices / from_taillard_file / JSON round trips, Schedule.to_dict / from_dict / "
+                     "from_taillard_file / JSON round trips, Schedule.to_dict / from_dict / "
                      "from_job_sequences (acceptance iff acyclic, no hang), immutability under observers, graph builders and "
                      "environments"],
     ),
@@ -372,7 +406,24 @@ PROPS = {
                      "IsCompletedObserver), that everything is removed at completion, ResidualGraphUpdater.update / reset, "
                      "episodes after reset"],
     ),
-    "C18": dict(level="exploration", functions=[], lemmas=[], tierb=True),
+    "C18": dict(
+        level="exploration",
+        functions=["SingleJobShopGraphEnv.step", "Schedule.is_complete", "Dispatcher.next_operation", "Dispatcher.dispatch"],
+        lemmas=["legal-decisions-in-action-space"],
+        tierb=True,
+        trusted=[T_OBSERVERS, "SingleJobShopGraphEnv.get_observation, composite_observer.column_names and "
+                 "reward_function.last_reward are opaque read-only contracts (numpy / gymnasium objects)"],
+        assumptions=[A_VALID,
+                     "proved (reported, not enough to claim the property): SingleJobShopGraphEnv.step dispatches the next "
+                     "operation of the chosen job on the chosen machine (-1 = its only machine), returns done == (every operation "
+                     "is scheduled) and truncated == False, and raises without changing anything for every illegal decision",
+                     "proved from the extracted statement `self.action_space = MultiDiscrete([..], start=[..])` of "
+                     "SingleJobShopGraphEnv.__init__ (trusted: MultiDiscrete contains x iff start <= x < start + nvec): every "
+                     "(job, machine) with 0 <= job < J and -1 <= machine < M is in the action space, for all J, M >= 1",
+                     "bounded only: observations belong to the declared spaces and mirror the graph, padding, the action space "
+                     "of the multi-instance environment, MultiJobShopGraphEnv (configuration kept across "
+                     "episodes, instances within the generator's ranges), reset"],
+    ),
     "C19": dict(
         level="proof",
         functions=["GeneralInstanceGenerator.generate", "GeneralInstanceGenerator.create_random_operation",
